@@ -71,10 +71,47 @@ int vasprintf(char **strp, const char *fmt, va_list ap) {
   char *s = malloc(2); __CPROVER_assume(s != 0); s[0] = 'E'; s[1] = 0; *strp = s; return 1;
 }
 int fprintf(FILE *stream, const char *fmt, ...) { (void)stream; (void)fmt; return 0; }
+#ifdef VH_REAL_STRDUP
+/* faithful strdup for the catalogue harnesses (names matter there): bounded by VH_STRMAX bytes */
+#ifndef VH_STRMAX
+#define VH_STRMAX 96
+#endif
+char *strdup(const char *src) {
+  __CPROVER_assert(src != 0, "strdup: source is not NULL");
+  /* strings longer than VH_STRMAX-1 bytes (only the library's error message literals in these harnesses) are truncated */
+  size_t n = 0; while (n < VH_STRMAX - 1 && src[n] != 0) n++;
+  char *s = malloc(n + 1); __CPROVER_assume(s != 0);
+  for (size_t k = 0; k < n; k++) s[k] = src[k];
+  s[n] = 0;
+  return s;
+}
+#else
 /* strdup: fresh 2-byte string holding the first byte of the source (keeps empty/non-empty), no strlen loop */
 char *strdup(const char *src) {
   __CPROVER_assert(src != 0, "strdup: source is not NULL");
   char *s = malloc(2); __CPROVER_assume(s != 0); s[0] = src[0]; s[1] = 0; return s;
+}
+#endif
+#endif
+#ifndef VH_NO_MEMCPY_MODEL
+/* byte-loop memcpy: CBMC 6.11's built-in model (array_copy/array_replace) is wrong when the source or destination is an
+ * interior sub-array of a larger object (measured: copy of row k > 0 of a 2-D table compares unequal); the loop is exact */
+void *memcpy(void *dst, const void *src, size_t n) {
+  for (size_t i = 0; i < n; i++) ((char *)dst)[i] = ((const char *)src)[i];
+  return dst;
+}
+#endif
+#ifdef VH_SEARCH_MODELS
+/* lfind / bsearch: linear scan / binary search with the REAL comparator (search.h / stdlib.h semantics) */
+void *lfind(const void *key, const void *base, size_t *nmemb, size_t size, int (*compar)(const void *, const void *)) {
+  for (size_t i = 0; i < *nmemb; i++) { const char *e = (const char *)base + i * size; if (compar(key, e) == 0) return (void *)e; }
+  return 0;
+}
+void *bsearch(const void *key, const void *base, size_t nmemb, size_t size, int (*compar)(const void *, const void *)) {
+  size_t lo = 0, hi = nmemb;
+  while (lo < hi) { size_t mid = lo + (hi - lo) / 2; const char *e = (const char *)base + mid * size; int c = compar(key, e);
+    if (c == 0) return (void *)e; if (c < 0) hi = mid; else lo = mid + 1; }
+  return 0;
 }
 #endif
 #endif /* VERIF_REPLAY */
